@@ -159,6 +159,9 @@ func runC04(c *Ctx) {
 		borrowRules(c, []string{"R08.3"}, runC08)
 	}
 
+	// ---- R04.12: dictionary look-ups of the tokenizer ---------------------------------
+	checkDictLookupsOnCleanWord(c, p)
+
 	// ---- R04.4: map-order determinism ----------------------------------------------
 	checkMapOrder(c, p, matchFn, explored)
 
@@ -246,6 +249,92 @@ func checkMapOrder(c *Ctx, p *core.Prog, matchFn *ssa.Function, explored []*ssa.
 		}
 	}
 	c.R.Count("R04.4:early exits from map ranges examined", nEarly)
+	// R04.13: inside a loop over a map no decision is taken on what earlier iterations left behind: a look-up in a map (or a
+	// load of a variable) that the same loop writes, feeding a branch, makes "which entries are kept" depend on which entry
+	// came first - sorting the kept entries afterwards does not help. Exempt is the de-duplication of whole values: the key
+	// that is looked up is the very value that is kept.
+	{
+		nL, bad := 0, ""
+		for _, fn := range explored {
+			if !core.InRepo(fn) || isTraceFn(fn) {
+				continue
+			}
+			for _, rl := range rangeLoopsOf(fn) {
+				if _, isMap := rl.over.Type().Underlying().(*types.Map); !isMap {
+					continue
+				}
+				nL++
+				loop := naturalLoop(rl.header)
+				written := map[ssa.Value]bool{}
+				for b := range loop {
+					for _, in := range b.Instrs {
+						if mu, ok := in.(*ssa.MapUpdate); ok {
+							written[core.Unspill(mu.Map)] = true
+						}
+					}
+				}
+				for b := range loop {
+					for _, in := range b.Instrs {
+						lk, ok := in.(*ssa.Lookup)
+						if !ok || !written[core.Unspill(lk.X)] {
+							continue
+						}
+						// does the result steer a branch of the loop?
+						steers := false
+						var follow func(v ssa.Value, d int)
+						follow = func(v ssa.Value, d int) {
+							if d > 4 || v.Referrers() == nil {
+								return
+							}
+							for _, r := range *v.Referrers() {
+								switch x := r.(type) {
+								case *ssa.If:
+									if loop[x.Block()] {
+										steers = true
+									}
+								case *ssa.Extract:
+									follow(x, d+1)
+								case *ssa.UnOp:
+									follow(x, d+1)
+								case *ssa.BinOp:
+									follow(x, d+1)
+								case *ssa.Phi:
+									follow(x, d+1)
+								}
+							}
+						}
+						follow(lk, 0)
+						if !steers {
+							continue
+						}
+						// de-duplication of whole values: every append in the loop that the branch controls appends the key itself
+						whole := true
+						nApp := 0
+						for b2 := range loop {
+							for _, in2 := range b2.Instrs {
+								call, isCall := in2.(*ssa.Call)
+								if !isCall {
+									continue
+								}
+								if bi, isB := call.Call.Value.(*ssa.Builtin); !isB || bi.Name() != "append" || len(call.Call.Args) != 2 {
+									continue
+								}
+								nApp++
+								if el := singleVarargElem(call.Call.Args[1]); el == nil || core.Unspill(el) != core.Unspill(lk.Index) {
+									whole = false
+								}
+							}
+						}
+						if nApp > 0 && !whole && bad == "" {
+							bad = core.ShortFn(fn) + ": the look-up at " + p.Pos(lk.Pos()) + " in a map that the loop over " + core.TypeName(rl.over.Type()) + " itself fills decides a branch, and what is kept is not the key that was looked up"
+						}
+					}
+				}
+			}
+		}
+		c.R.Check(bad == "", "R04.13", "loops over a map take no decision on what earlier iterations left behind", v2pkg, fmt.Sprintf("%d loops over maps in the Match tree", nL),
+			bad+": which of several entries with the same key is kept depends on the iteration order of the map, which changes from call to call - the same input gives different Results")
+	}
 	for _, s := range oa.Sorts {
 		key := "sort in " + core.ShortFn(s.Fn) + " of " + describeSorted(s)
 		d := ""
